@@ -29,7 +29,8 @@ CLAIMED = {
             "Wire images for every class x domain value x flag byte (16 quick / all 128 thorough), unknown "
             "(vendor, code) pairs, nested Grouped AVPs, header products with all 256 command-flag bytes and "
             "all streams of <= 2/3 messages over a 5-message alphabet are decoded by the library and compared "
-            "field by field and by re-serialisation.",
+            "field by field and by re-serialisation; plus every history of <= 5 steps over {decode pair A, decode pair B, define a "
+            "class for A, define a class for B} (the dictionary growing between decodes).",
             "Trusts refcodec/refdict; 'well-formed' excludes non-zero padding, V bit with Vendor-ID 0, unknown "
             "enumerators, Grouped AVPs lacking mandatory members. One known finding (flags of known AVPs).",
             "DESIGN.md 4/C02"),
@@ -146,8 +147,9 @@ CLAIMED = {
             "explicit-state breadth-first search over operation histories replayed on the real container, to closure",
             "BFS to closure of the canonical state space of container-operation histories {append, extend, pop, "
             "cleanup, avps=, item assignment, update_key, update_avps, refresh} over a 4/5-letter AVP alphabet with "
-            "equal-valued twins, an unknown AVP and a Session-Id, on an empty message, a typed DWR and a typed S6a "
-            "ULR (quick ~20k states / 0.5M transitions; thorough ~115k states / 4.7M transitions); after every "
+            "equal-valued twins, an unknown AVP and a Session-Id (rename targets include the container's own attribute names), on an "
+            "empty message, a typed DWR, a typed S6a ULR and two messages as the decoder returns them (header-only, DWR) "
+            "( (quick ~20k states / 0.5M transitions; thorough ~115k states / 4.7M transitions); after every "
             "transition view/list identity, membership, order against a list reference, Message Length.",
             "List length capped at 3 (4 on a 3-letter alphabet in thorough); canonical form replaces object "
             "identities by alphabet letters; an AVP object is never listed twice; the Grouped container is outside "
@@ -167,7 +169,7 @@ CLAIMED = {
             "All 63 non-empty route tables over {S6a, Gx} x {316, 317, 272} registered through @app.route x all "
             "histories of <= 2 (thorough <= 3 on small and full tables) requests x 6 handler outcomes through the "
             "real callback_route; every builtin Exception subclass and every class of bromelia.exceptions x 7 argument "
-            "shapes; answers lacking the Session-Id; request shapes lacking Session-Id / Origin-Host / Origin-Realm: "
+            "shapes; route functions with distinct names and all bearing the same name; answers lacking the Session-Id; request shapes lacking Session-Id / Origin-Host / Origin-Realm: "
             "exactly the registered handler ran once, exactly one message on that application's send queue, "
             "UNABLE_TO_COMPLY content when the handler gave no answer. SCHED part: two (thorough three) requests in "
             "flight with handlers returning a module-level answer / module-level AVPs / fresh objects, every schedule "
@@ -184,7 +186,8 @@ CLAIMED = {
             "non-default thread choice at a synchronisation operation or shared-attribute source line, or a long "
             "stall of the running thread; oracle: every caller returns its own answer, none twice, none never. Also: a caller "
             "that sends the same request again once answered (peer quick / slow), two connections (two workers) with the "
-            "same Hop-by-Hop identifier outstanding on both, and a connection that ends right behind its answer.",
+            "same Hop-by-Hop identifier outstanding on both, a duplicate of the first answer next to a retry, and a connection that "
+            "ends right behind its answer.",
             "In-process Worker with a stand-in manager and a stub connection below it; line-level atomicity; bounded "
             "number of deviations; liveness under the fair continuation after the last deviation.",
             "DESIGN.md 4/C14"),
@@ -193,7 +196,8 @@ CLAIMED = {
             "All creation histories of length <= 3/4 over 6 creation kinds x every os.urandom answer sequence over a "
             "3-symbol alphabet (lazy branching at every draw, <= 8/10 draws): auto-header requests pairwise distinct "
             "in Hop-by-Hop and End-to-End, explicit-header requests and answers consume no draw, grow no registry and "
-            "keep their identifiers.",
+            "keep their identifiers; the first requests of a process (one freshly forked process per history, every request "
+            "class coming first).",
             "Concurrent clause: 2 (thorough 3) creator threads on the schedule explorer with the random source's answers "
             "{fresh, same-as-last} as environment choices, every schedule with <= 2 (3) deviations. os.urandom substituted "
             "as a module global of bromelia.base; data-independence argument for 3 symbols.",
